@@ -44,19 +44,34 @@ func VerifIsListElement(path string) bool {
 	return isListElement(path)
 }
 
+// verifReleased panics when a function returned with the result lock it was handed still held
+// (the executor hands one lock to every step and to the collector: a lock left held stops them all).
+func verifReleased(lock *sync.Mutex) {
+	if !lock.TryLock() {
+		panic("the result lock was left held")
+	}
+	lock.Unlock()
+}
+
 // VerifFindInsertionPoints calls executorFindInsertionPoints.
 func VerifFindInsertionPoints(ctx *ExecutionContext, targetPoints []string, selectionSet ast.SelectionSet, result map[string]interface{}, startingPoints [][]string, fragmentDefs ast.FragmentDefinitionList) ([][]string, error) {
-	return executorFindInsertionPoints(ctx, &sync.Mutex{}, targetPoints, selectionSet, result, startingPoints, fragmentDefs)
+	lock := &sync.Mutex{}
+	defer verifReleased(lock)
+	return executorFindInsertionPoints(ctx, lock, targetPoints, selectionSet, result, startingPoints, fragmentDefs)
 }
 
 // VerifExtractValue calls executorExtractValue.
 func VerifExtractValue(ctx *ExecutionContext, source map[string]interface{}, path []string) (interface{}, error) {
-	return executorExtractValue(ctx, source, &sync.Mutex{}, path)
+	lock := &sync.Mutex{}
+	defer verifReleased(lock)
+	return executorExtractValue(ctx, source, lock, path)
 }
 
 // VerifInsertObject calls executorInsertObject.
 func VerifInsertObject(ctx *ExecutionContext, target map[string]interface{}, path []string, value interface{}) error {
-	return executorInsertObject(ctx, target, &sync.Mutex{}, path, value)
+	lock := &sync.Mutex{}
+	defer verifReleased(lock)
+	return executorInsertObject(ctx, target, lock, path, value)
 }
 
 // VerifScrubInsertionIDs calls scrubInsertionIDs.
